@@ -19,7 +19,7 @@ import ast
 import asyncio
 import itertools
 
-from vf import par, vloop
+from vf import par, vloop, vloopx
 
 NEEDS_SERVICES = False
 LIFETIME = 10  # seconds of virtual time
@@ -36,33 +36,15 @@ class Boom(Exception):
         self.load_id = load_id
 
 
-class _Loop(vloop.VLoop):
-    """Deterministic names for tasks the code under test creates (asyncio's default counter is process-global)."""
-
-    _anon = 0
-
-    def create_task(self, coro, *, name=None, context=None):
-        if name is None:
-            self._anon += 1
-            name = f'load-task-{self._anon}'
-        return super().create_task(coro, name=name, context=context)
-
-    def full_state(self):
-        # state hashes of replayed prefix points are never used by the explorer: skip computing them
-        ch = self.chooser
-        if len(ch.points) < len(ch.prefix):
-            return None
-        return super().full_state()
-
-
-def make_run_one(num_slots, lookups):
+def make_run_one(num_slots, lookups, n_opts=3, reduce=True):
     """lookups: tuple of (key, arrival, cancel_time|None)."""
     from gear.time_limited_max_size_cache import TimeLimitedMaxSizeCache
 
     m = len(lookups)
 
     def run(chooser):
-        loop = _Loop(chooser)
+        loop = vloopx.XLoop(chooser)
+        loop.anon_prefix = 'load-task'
         loop.sort_ready_in_state = True
         loads = []
         ph = [('new',)] * m
@@ -92,7 +74,7 @@ def make_run_one(num_slots, lookups):
             return ld['coro']
 
         async def _load(ld):
-            opt = vloop.choose(len(LOAD_OPTS), f'load{ld["id"]}({ld["key"]})')
+            opt = (0, 2, 1)[vloop.choose(n_opts, f'load{ld["id"]}({ld["key"]})')]
             ld['opt'] = opt
             ld['stage'] = 'running'
             try:
@@ -209,6 +191,19 @@ def make_run_one(num_slots, lookups):
                     tuple(sorted((k, v, exp.get(k, 0) - now_ns) for k, v in c.items())),
                     tuple(sorted(getattr(cache, '_futures', {}))), st['maxsize'], st['viol'] is None)
 
+        def independent(h):
+            # asyncio plumbing (timer -> sleep future, shield/gather result copying) is independent of every other step
+            # except a cancellation of a task it is about to wake: keep the choice while such a controller may still fire
+            if vloopx.is_task_step(h):
+                return False
+            aff = vloopx.affected_tasks(h)
+            if aff is None:
+                return False
+            live_victims = {tasks[i] for i in range(m) if lookups[i][2] is not None and i not in st['kinds'] and i in tasks}
+            return not (aff & live_victims)
+
+        if reduce:
+            loop.independent = independent
         loop.state_fn = state
         loop.step_hook = hook
         loop.run(setup(), max_steps=50)
@@ -260,22 +255,23 @@ def _explore_config(cfg):
 
 
 def _size(cfg):
-    slots, lk = cfg
-    return (len(lk), sum(1 for x in lk if x[2] is not None), len({x[0] for x in lk}), sum(x[1] for x in lk), slots,
+    slots, lk, n_opts = cfg
+    return (len(lk), sum(1 for x in lk if x[2] is not None), len({x[0] for x in lk}), sum(x[1] for x in lk), slots, n_opts,
             tuple((k, a, -1 if c is None else c) for k, a, c in lk))
 
 
 def configs(tier):
     out = []
     if tier == 'quick':
-        plan = [((1, 2), m, ('a', 'b'), (0, 10, 11), (0, 10), 1) for m in (2, 3)]
+        plan = [((1, 2), 2, ('a', 'b'), (0, 10, 11), (0, 10), 1, 3),
+                ((1, 2), 3, ('a', 'b'), (0, 10, 11), (0, 10), 1, 2)]
     else:
-        plan = [((1, 2), 2, ('a', 'b'), (0, 1, 10, 11, 12), (0, 1, 10, 11), 2),
-                ((1, 2), 3, ('a', 'b', 'c'), (0, 1, 10, 11), (0, 1, 10, 11), 1),
-                ((1, 2), 3, ('a', 'b'), (0, 10, 11), (0, 10), 2),
-                ((1, 2), 4, ('a', 'b'), (0, 10, 11), (0, 10), 1)]
+        plan = [((1, 2), 2, ('a', 'b'), (0, 1, 10, 11, 12), (0, 1, 10, 11), 2, 3),
+                ((1, 2), 3, ('a', 'b', 'c'), (0, 1, 10, 11), (0, 1, 10, 11), 1, 3),
+                ((1, 2), 3, ('a', 'b'), (0, 10, 11), (0, 10), 2, 2),
+                ((1, 2), 4, ('a', 'b'), (0, 10, 11), (0, 10), 1, 2)]
     seen = set()
-    for slotss, m, keys, arrivals, ctimes, maxv in plan:
+    for slotss, m, keys, arrivals, ctimes, maxv, n_opts in plan:
         types = sorted(((k, a, c) for k in keys for a in arrivals for c in (None,) + tuple(ctimes)),
                        key=lambda x: (x[0], x[1], -1 if x[2] is None else x[2]))
         for lk in itertools.combinations_with_replacement(types, m):
@@ -289,7 +285,7 @@ def configs(tier):
             if order != sorted(order) or order != list(keys[:len(order)]):
                 continue
             for s in slotss:
-                cfg = (s, lk)
+                cfg = (s, lk, n_opts)
                 if cfg not in seen:
                     seen.add(cfg)
                     out.append(cfg)
@@ -298,9 +294,9 @@ def configs(tier):
 
 
 SELFCHECK = [
-    (1, (('a', 0, None), ('a', 0, 0))),
-    (1, (('a', 0, None), ('b', 10, 10))),
-    (2, (('a', 0, 0), ('a', 0, None), ('a', 11, None))),
+    (1, (('a', 0, None), ('a', 0, 0)), 3),
+    (1, (('a', 0, None), ('b', 10, 10)), 3),
+    (2, (('a', 0, 0), ('a', 0, None), ('a', 11, None)), 2),
 ]
 
 
@@ -308,8 +304,8 @@ def _selfcheck_pruning():
     """Pruning must not lose behaviours.  The unpruned search is capped (it explodes quickly): every outcome and
     violation class it finds must also be found by the complete pruned search; equality when it completed."""
     for cfg in SELFCHECK:
-        a = vloop.explore(make_run_one, cfg, bound=None, procs=1)
-        b = vloop.explore(make_run_one, cfg, bound=None, procs=1, prune=False, cap=6000)
+        a = vloop.explore(make_run_one, cfg + (True,), bound=None, procs=1)
+        b = vloop.explore(make_run_one, cfg + (False,), bound=None, procs=1, prune=False, cap=6000)
         if not set(b.outcomes) <= set(a.outcomes) or (not b.capped and set(a.outcomes) != set(b.outcomes)):
             raise RuntimeError(f'state-hash pruning lost outcomes for {cfg}: {sorted(set(b.outcomes) ^ set(a.outcomes))[:3]}')
         va, vb = {v[0] for v in a.violations}, {v[0] for v in b.violations}
@@ -378,7 +374,7 @@ def check(tier, seed, procs):
 
 
 def replay(obj):
-    slots, lk = obj['config']
+    slots, lk, n_opts = obj['config']
     lk = tuple((k, a, c) for k, a, c in lk)
-    x = vloop.run_prefix(make_run_one(slots, lk), tuple(obj['choices']))
+    x = vloop.run_prefix(make_run_one(slots, lk, n_opts), tuple(obj['choices']))
     return x.violation is None, x.violation or 'no violation'
